@@ -285,6 +285,10 @@ class _LifeSock(PeerSock):
         return 9
 
 
+class HarnessAssumption(RuntimeError):
+    pass
+
+
 def chk_lifecycle(case):
     """Node.connect_peer for real (socket and thread classes replaced by scripted ones), receive loops run one after the other.
     case: {"seed", "first": [names per peer a, b, c], "exits": [bool per peer: its receive loop has run to its end before the
@@ -339,7 +343,7 @@ def chk_lifecycle(case):
             node.connect_peer("10.0.0.%d" % (len(peers) + 1), 8333)
             new = [k for k, v in node._peer_sockets.items() if v is sock]
             if len(new) != 1 or len(threads) != n_thr + 1:
-                raise RuntimeError(f"connect_peer did not register the new socket once: {new}")
+                raise HarnessAssumption(f"connect_peer did not register the new socket under exactly one number / start exactly one thread: {new}")
             holder["thread"] = threads[-1]
             sock.sent.clear()          # (the version message connect_peer sends)
             peers.append({"label": label, "sock": sock, "no": new[0], "msgs": msgs, "thread": threads[-1], "names": names, "ran": False})
@@ -356,6 +360,8 @@ def chk_lifecycle(case):
         for pr in peers:
             if not pr["ran"]:
                 run(pr)
+    except HarnessAssumption:
+        raise            # the harness's picture of Node (one socket entry and one thread per connect) does not fit: HARNESS-ERROR, no verdict
     except Exception as e:
         out.append(("C18/lifecycle/raised", f"{type(e).__name__}: {str(e)[:120]} (first={case['first']} exits={case['exits']} late={case['late']})"))
     finally:
@@ -379,15 +385,18 @@ def chk_lifecycle(case):
     nos = {}
     for pr in peers:
         nos.setdefault(pr["no"], []).append(pr["label"])
-    dup = {k: v for k, v in nos.items() if len(v) > 1}
     q = list(node._msg_queue)
-    if dup and any(m[0] in dup for m in q):
-        out.append(("C18/lifecycle/peer-number-reused", f"peers {dup} share a peer number while messages attributed to it are in the queue {tag}"))
-    elif dup:
-        out.append(("C18/lifecycle/peer-number-reused", f"peers {dup} share a peer number {tag}"))
+    queues = {pr["label"]: [c for (c, pl) in pr["msgs"] if c not in (b"version", b"verack", b"ping")] for pr in peers}
+    # a number may be handed out again once its previous holder is gone AND nothing of it is left in the queue; it is ambiguous
+    # (and reported) when two peers that both have messages in the queue share it
+    dup = {k: v for k, v in nos.items() if len([l for l in v if queues[l]]) > 1}
+    if dup:
+        out.append(("C18/lifecycle/peer-number-reused", f"peers {dup} share a peer number while messages of both are in the queue {tag}"))
     else:
         for pr in peers:
-            want = [(pr["no"], c) for (c, pl) in pr["msgs"] if c not in (b"version", b"verack", b"ping")]
+            if not queues[pr["label"]]:
+                continue
+            want = [(pr["no"], c) for c in queues[pr["label"]]]
             got = [(m[0], m[1]) for m in q if m[0] == pr["no"]]
             if got != want:
                 out.append(("C18/lifecycle/queue", f"peer {pr['label']} (number {pr['no']}): queued {got}, expected {want} {tag}"))
